@@ -244,7 +244,16 @@ def run_profile(sh, prop, profile, n_models, monitors, nontrivial=None, prefix='
     for i in sh.share(n_models):
         seed = core.stable_int(sh.seed, prop, profile, tag, i) % (1 << 40)
         tie = tie_policies[i % len(tie_policies)]
-        spec = modelgen.generate(seed, profile, tie=tie, overrides=overrides)
+        ov = overrides
+        if sh.tier == 'thorough' and i % 4 == 3:
+            # a quarter of the thorough tier: larger models, longer horizons, more sources
+            ov = dict(overrides or {})
+            ov.setdefault('n_stages', (6, 12))
+            ov.setdefault('horizon', (60, 150))
+            ov.setdefault('n_sources', (2, 4))
+            ov['max_events'] = 60000
+            sh.count(prefix + 'large_models')
+        spec = modelgen.generate(seed, profile, tie=tie, overrides=ov)
         run_spec(sh, prop, spec, monitors, nontrivial, prefix)
 
 
